@@ -1,23 +1,57 @@
 package main
 
-import "fmt"
+import (
+	"fmt"
+	"strings"
+
+	"golang.org/x/tools/go/ssa"
+)
 
 type heldLock struct {
 	m     *MutexState
 	write bool
 }
 
-// access implements an Eraser-style lockset discipline (opt-in per harness).
-func (ex *Exec) access(o *Object, write bool) {
-	if !ex.cfg.Lockset || ex.noTrack || o == nil || ex.cur == nil {
+// per (object, field) lockset state
+type lockCell struct {
+	firstThr int
+	shared   bool
+	written  bool
+	keys     map[string]bool
+}
+
+// access implements an Eraser-style lockset discipline (opt-in per harness), at the
+// granularity of (object, first path element): struct fields and array elements are
+// tracked separately. Objects allocated by harness code are exempt.
+func (ex *Exec) access(o *Object, write bool) { ex.accessField(o, -1, write) }
+
+func (ex *Exec) accessField(o *Object, field int, write bool) {
+	if !ex.cfg.Lockset || ex.noTrack || o == nil || ex.cur == nil || o.exempt {
 		return
 	}
 	th := ex.cur
-	if o.firstThr == -1 {
-		o.firstThr = th.id
+	// accesses made directly by harness code (inspecting the state after the threads have
+	// finished) are not part of the code under test
+	if len(th.frames) > 0 {
+		fn := th.frames[len(th.frames)-1].fn
+		h, ok := ex.harnessFn[fn]
+		if !ok {
+			h = ex.isHarnessFn(fn)
+			ex.harnessFn[fn] = h
+		}
+		if h {
+			return
+		}
+	}
+	if o.cells == nil {
+		o.cells = map[int]*lockCell{}
+	}
+	cell := o.cells[field]
+	if cell == nil {
+		o.cells[field] = &lockCell{firstThr: th.id}
 		return
 	}
-	if !o.shared && o.firstThr == th.id {
+	if !cell.shared && cell.firstThr == th.id {
 		return
 	}
 	cur := map[string]bool{}
@@ -27,28 +61,38 @@ func (ex *Exec) access(o *Object, write bool) {
 		}
 		cur[h.m.key] = true
 	}
-	if !o.shared {
-		o.shared = true
-		o.lockKeys = cur
+	if !cell.shared {
+		cell.shared = true
+		cell.keys = cur
 	} else {
-		for k := range o.lockKeys {
+		for k := range cell.keys {
 			if !cur[k] {
-				delete(o.lockKeys, k)
+				delete(cell.keys, k)
 			}
 		}
 	}
 	if write {
-		o.written = true
+		cell.written = true
 	}
-	if o.written && len(o.lockKeys) == 0 {
-		key := fmt.Sprintf("%d", o.id)
+	if cell.written && len(cell.keys) == 0 {
+		key := fmt.Sprintf("%d/%d", o.id, field)
 		if !ex.lockViol[key] {
 			ex.lockViol[key] = true
 			lbl := o.label
 			if lbl == "" && o.typ != nil {
 				lbl = o.typ.String()
 			}
-			ex.violationHere("race", fmt.Sprintf("lockset violation: object %s (%s) accessed by several goroutines with no common lock (write=%v)", o, lbl, write))
+			ex.violationHere("race", fmt.Sprintf("lockset violation: %s (%s) field/element %d accessed by several goroutines with no common lock (write=%v)", o, lbl, field, write))
 		}
 	}
+}
+
+// isHarnessFn: is the function (or the function enclosing the closure) defined in a harness file?
+func (ex *Exec) isHarnessFn(fn *ssa.Function) bool {
+	for f := fn; f != nil; f = f.Parent() {
+		if f.Pos().IsValid() {
+			return strings.Contains(ex.P.fset.Position(f.Pos()).Filename, "zz_verif_")
+		}
+	}
+	return false
 }
